@@ -122,3 +122,31 @@ Proof.
     + intros [[= <-]|Hin]; [now apply strip_cr_nolf|now apply IH].
     + intros [E|[]]. discriminate E.
 Qed.
+
+(* ---------------------------------------------------------------- encoder / decoder round trip *)
+Lemma strip_cr_snoc l : strip_cr (l ++ [CR]) = l.
+Proof. unfold strip_cr. rewrite rev_app_distr. cbn [rev app]. cbn. now rewrite rev_involutive. Qed.
+
+Lemma nolf_snoc_cr l : nolf l -> nolf (l ++ [CR]).
+Proof. unfold nolf. intros H. rewrite forallb_app, H. reflexivity. Qed.
+
+Lemma lines_of_encode l rest : nolf l ->
+  lines_of (encode l ++ rest) = let '(ls, r) := lines_of rest in ((l ++ [CR]) :: ls, r).
+Proof.
+  intros H. unfold encode. change [CR; LF] with ([CR] ++ [LF]). rewrite app_assoc, <- app_assoc. cbn [app].
+  rewrite (lines_of_nolf_app (l ++ [CR]) (LF :: rest) (nolf_snoc_cr l H)). cbn [lines_of]. destruct (lines_of rest) as [ls r].
+  change (N.eqb LF LF) with true. cbn iota. now rewrite app_nil_r.
+Qed.
+
+(* Every line the server emits is one CRLF-terminated message: what the encoder writes for a list of
+   LF-free lines (each shorter than the receiver's limit) is framed by the same codec into exactly those
+   lines, in order, with nothing left over - also when a line ends in CR or contains CR. *)
+Theorem decode_encode ls : Forall (fun l => nolf l /\ (length l < max_len)%nat) ls ->
+  feed [] (concat (map encode ls)) = (map FLine ls, []).
+Proof.
+  unfold feed. cbn [app]. induction ls as [|l ls IH]; intros H; [reflexivity|].
+  inversion H as [|? ? [Hn Hl] Hls]; subst. cbn [map concat]. rewrite (lines_of_encode l _ Hn).
+  specialize (IH Hls). destruct (lines_of (concat (map encode ls))) as [ls' r]. injection IH as IH1 IH2. subst r.
+  cbn [frames_of]. rewrite app_length. cbn [length].
+  destruct (Nat.leb_spec (length l + 1) max_len) as [_|Hgt]; [|lia]. rewrite strip_cr_snoc, IH1. reflexivity.
+Qed.
